@@ -45,10 +45,34 @@ type lgCluster struct {
 	commit bool // component 102: answers are kept and can be processed by the sender (commitment)
 	ans    []lgAns
 	hb     map[int]bool
-	snap   bool                    // component 103: takeSnapshot ops, the newest snapshot in the state dump
+	snap   bool // component 103: takeSnapshot ops, the newest snapshot in the state dump
+	inst   bool // component 104: replicateTo may send the newest snapshot (InstallSnapshot requests, answers)
+	smsgs  []lgSMsg
+	sans   []lgSAns
+	sout   map[[2]uint64]int
 	calls  map[[2]uint64]*evDriven // component 102: the replicateTo call in progress per (leader, follower)
 	out    map[[2]uint64]int       // ... and the request it waits for
 	futs   []*lgFut                // component 102: the Apply calls issued, in order
+}
+
+type lgSMsg struct {
+	from, to uint64
+	req      *raft.InstallSnapshotRequest
+	data     []byte
+}
+
+type lgSAns struct {
+	req  int
+	resp *raft.InstallSnapshotResponse
+}
+
+// make the blocked transport call of d fail (whichever kind of request it is waiting with)
+func (d *evDriven) fail() {
+	if d.sreq != nil {
+		d.sverdict <- nil
+	} else {
+		d.verdict <- nil
+	}
 }
 
 // an Apply call and what became of it
@@ -89,7 +113,8 @@ func (c *lgCluster) newAcks() []uint64 {
 // built a request (now waiting in the transport) or has returned without sending
 func (c *lgCluster) startRepl(i, j, last uint64) *evDriven {
 	n := c.nodes[i]
-	d := &evDriven{from: i, to: j, last: last, inst: n.inst, parked: make(chan struct{}, 1), verdict: make(chan *raft.AppendEntriesResponse, 1), done: make(chan struct{})}
+	d := &evDriven{from: i, to: j, last: last, inst: n.inst, parked: make(chan struct{}, 1), verdict: make(chan *raft.AppendEntriesResponse, 1), done: make(chan struct{}),
+		snapsOK: c.inst, sverdict: make(chan *raft.InstallSnapshotResponse, 1)}
 	started := make(chan struct{})
 	go func() {
 		id := goid()
@@ -133,11 +158,18 @@ func (c *lgCluster) afterVerdict(d *evDriven) bool {
 func (c *lgCluster) dropDeadCalls() {
 	for k, d := range c.calls {
 		n := c.nodes[k[0]]
-		if n.inst != d.inst || n.r.State() != raft.Leader || n.r.CurrentTerm() != d.req.Term {
-			d.verdict <- nil
+		term := uint64(0)
+		if d.sreq != nil {
+			term = d.sreq.Term
+		} else if d.req != nil {
+			term = d.req.Term
+		}
+		if n.inst != d.inst || n.r.State() != raft.Leader || n.r.CurrentTerm() != term {
+			d.fail()
 			<-d.done
 			delete(c.calls, k)
 			delete(c.out, k)
+			delete(c.sout, k)
 		}
 	}
 }
@@ -145,7 +177,7 @@ func (c *lgCluster) dropDeadCalls() {
 func newLgCluster(extras []uint64, commit bool) *lgCluster { return newLgClusterT(extras, commit, 0) }
 
 func newLgClusterT(extras []uint64, commit bool, trail uint64) *lgCluster {
-	c := &lgCluster{evCluster: newEvClusterT(extras, trail), commit: commit, snap: trail != 0, calls: map[[2]uint64]*evDriven{}, out: map[[2]uint64]int{}}
+	c := &lgCluster{evCluster: newEvClusterT(extras, trail), commit: commit, snap: trail != 0, calls: map[[2]uint64]*evDriven{}, out: map[[2]uint64]int{}, sout: map[[2]uint64]int{}}
 	if commit {
 		c.driven = map[uint64]*evDriven{}
 	}
@@ -154,7 +186,7 @@ func newLgClusterT(extras []uint64, commit bool, trail uint64) *lgCluster {
 
 func (c *lgCluster) closeAll() {
 	for k, d := range c.calls {
-		d.verdict <- nil
+		d.fail()
 		select {
 		case <-d.done:
 		case <-time.After(time.Second):
@@ -209,11 +241,10 @@ func (c *lgCluster) observe() []uint64 {
 				out = append(out, 0)
 			}
 			if c.snap {
-				var si, st uint64
-				if metas, _ := nd.snaps.List(); len(metas) > 0 {
-					si, st = metas[0].Index, metas[0].Term
-				}
-				out = append(out, si, st)
+				// the server's last snapshot as it records it (after an InstallSnapshot of an older snapshot this is
+				// that one, not the newest in the store); read at quiescence
+				st := nd.r.VerifNodeState()
+				out = append(out, st.LastSnapshotIndex, st.LastSnapshotTerm)
 			}
 		}
 	}
@@ -227,6 +258,9 @@ func (c *lgCluster) observe() []uint64 {
 		for _, l := range q.Entries {
 			out = append(out, l.Index, l.Term)
 		}
+	}
+	if c.inst {
+		out = append(out, uint64(len(c.smsgs)), uint64(len(c.sans)))
 	}
 	if c.commit {
 		out = append(out, c.newAcks()...)
@@ -265,8 +299,14 @@ func (c *lgCluster) doRepl(op []uint64) bool {
 				if d = c.startRepl(op[1], op[2], op[4]); d == nil {
 					return false
 				}
+				if d.sreq != nil {
+					// the call turned to sendLatestSnapshot: not this op
+					d.fail()
+					<-d.done
+					return false
+				}
 				c.calls[k] = d
-			} else if _, waiting := c.out[k]; waiting || d.last != op[4] || d.req.PrevLogEntry+1 != op[3] {
+			} else if _, waiting := c.out[k]; waiting || d.req == nil || d.last != op[4] || d.req.PrevLogEntry+1 != op[3] {
 				return false
 			}
 			c.out[k] = len(c.msgs)
@@ -337,6 +377,73 @@ func (c *lgCluster) doRepl(op []uint64) bool {
 			c.lost = true
 			return false
 		}
+	case 15:
+		// replicateTo(j, last) finds an entry it needs compacted away and sends the newest snapshot
+		if !c.inst || op[1] == op[2] || c.nodes[op[1]].r.State() != raft.Leader {
+			return false
+		}
+		k := [2]uint64{op[1], op[2]}
+		d := c.calls[k]
+		if d == nil {
+			if d = c.startRepl(op[1], op[2], op[3]); d == nil {
+				return false
+			}
+			if d.sreq == nil {
+				d.fail()
+				<-d.done
+				return false
+			}
+			c.calls[k] = d
+		} else {
+			_, w1 := c.out[k]
+			_, w2 := c.sout[k]
+			if w1 || w2 || d.sreq == nil || d.last != op[3] {
+				return false
+			}
+		}
+		c.sout[k] = len(c.smsgs)
+		c.smsgs = append(c.smsgs, lgSMsg{op[1], op[2], d.sreq, d.sdata})
+	case 16:
+		if !c.inst || op[1] >= uint64(len(c.smsgs)) {
+			return false
+		}
+		m := c.smsgs[op[1]]
+		out, err := c.executeR(m.to, m.req, bytes.NewReader(m.data))
+		if err == nil {
+			if resp, ok := out.(*raft.InstallSnapshotResponse); ok {
+				c.sans = append(c.sans, lgSAns{int(op[1]), resp})
+			}
+		}
+	case 17:
+		if !c.inst || op[1] >= uint64(len(c.sans)) {
+			return false
+		}
+		a := c.sans[op[1]]
+		m := c.smsgs[a.req]
+		k := [2]uint64{m.from, m.to}
+		d := c.calls[k]
+		if w, ok := c.sout[k]; d == nil || !ok || w != a.req {
+			return false
+		}
+		n := c.nodes[m.from]
+		if n.r.State() != raft.Leader || n.r.CurrentTerm() != m.req.Term {
+			return false
+		}
+		delete(c.sout, k)
+		d.sverdict <- a.resp
+		if !c.afterVerdict(d) {
+			delete(c.calls, k)
+		}
+	case 18:
+		k := [2]uint64{op[1], op[2]}
+		d := c.calls[k]
+		if _, ok := c.sout[k]; d == nil || !ok {
+			return false
+		}
+		delete(c.sout, k)
+		delete(c.calls, k)
+		d.sverdict <- nil
+		<-d.done
 	case 14:
 		// the leader loop consumed commitCh: it has happened by the time the cluster is quiet
 		return c.commit
@@ -356,29 +463,42 @@ func (c *lgCluster) doRepl(op []uint64) bool {
 	return true
 }
 
-var lgOpLen = map[uint64]int{1: 2, 2: 3, 3: 3, 4: 6, 5: 2, 7: 3, 8: 5, 9: 3, 10: 2, 11: 2, 12: 2, 13: 3, 14: 2}
+var lgOpLen = map[uint64]int{1: 2, 2: 3, 3: 3, 4: 6, 5: 2, 7: 3, 8: 5, 9: 3, 10: 2, 11: 2, 12: 2, 13: 3, 14: 2, 15: 4, 16: 2, 17: 2, 18: 3}
 
 func c101Gen(r *rng, n int, steps int, commit bool) (in []uint64, obs []uint64, leaders int) {
 	return c101GenT(r, n, steps, commit, 0)
 }
 
 func c101GenT(r *rng, n int, steps int, commit bool, trail uint64) (in []uint64, obs []uint64, leaders int) {
+	return c101GenI(r, n, steps, commit, trail, false)
+}
+
+func c101GenI(r *rng, n int, steps int, commit bool, trail uint64, inst bool) (in []uint64, obs []uint64, leaders int) {
 	extras := make([]uint64, n)
 	for i := range extras {
 		extras[i] = uint64(r.intn(3))
 	}
 	c := newLgClusterT(extras, commit, trail)
+	c.inst = inst
 	defer c.closeAll()
 	c.settle()
 	in = append([]uint64{uint64(n)}, extras...)
 	if trail != 0 {
 		in = append([]uint64{trail - 1}, in...)
 	}
-	emit := func(op []uint64) {
+	var emit func(op []uint64)
+	emit = func(op []uint64) {
+		if c.lost {
+			return // the script has lost control of the cluster's timing: nothing more is recorded
+		}
 		var ldr *evNode
 		var before uint64
 		if commit && op[0] == 12 && op[1] < uint64(len(c.ans)) {
 			ldr = c.nodes[c.msgs[c.ans[op[1]].req].from]
+			before = ldr.r.CommitIndex()
+		}
+		if commit && op[0] == 17 && op[1] < uint64(len(c.sans)) {
+			ldr = c.nodes[c.smsgs[c.sans[op[1]].req].from]
 			before = ldr.r.CommitIndex()
 		}
 		if !c.doRepl(op) {
@@ -398,6 +518,25 @@ func c101GenT(r *rng, n int, steps int, commit bool, trail uint64) (in []uint64,
 		in = append(in, op...)
 		obs = append(obs, 1)
 		obs = append(obs, c.observe()...)
+	}
+	// replicateTo went on after an answer and built its next request (only where the commit index is not moving:
+	// after a refusal; every call is started with at most one batch to send / up to the snapshot only): it is
+	// recorded and the call is then made to fail
+	followUps := func() {
+		for key, d := range c.calls {
+			_, w1 := c.out[key]
+			_, w2 := c.sout[key]
+			if w1 || w2 {
+				continue
+			}
+			if d.sreq != nil {
+				emit([]uint64{15, key[0], key[1], d.last})
+				emit([]uint64{18, key[0], key[1]})
+			} else if d.req != nil {
+				emit([]uint64{8, key[0], key[1], d.req.PrevLogEntry + 1, d.last})
+				emit([]uint64{13, key[0], key[1]})
+			}
+		}
 	}
 	next := uint64(500)
 	for s := 0; s < steps && !c.lost; s++ {
@@ -452,6 +591,45 @@ func c101GenT(r *rng, n int, steps int, commit bool, trail uint64) (in []uint64,
 			emit([]uint64{11, uint64(1 + r.intn(n))})
 			continue
 		}
+		if c.inst && len(leaders) > 0 && r.chance(1, 8) {
+			// ... and more often at a leader that has applied something since its last snapshot
+			i := leaders[r.intn(len(leaders))][0]
+			metas, _ := c.nodes[i].snaps.List()
+			if len(metas) == 0 || c.nodes[i].r.AppliedIndex() > metas[0].Index {
+				emit([]uint64{11, i})
+				continue
+			}
+		}
+		if c.inst && r.chance(1, 4) {
+			// snapshot transfer: a leader holding a snapshot whose follower needs something compacted away
+			i := leaders[r.intn(len(leaders))][0]
+			j := 1 + (i-1+uint64(1+r.intn(n-1)))%uint64(n)
+			metas, _ := c.nodes[i].snaps.List()
+			switch y := r.intn(10); {
+			case y < 5 && len(metas) > 0 && c.calls[[2]uint64{i, j}] == nil:
+				nsm := len(c.smsgs)
+				emit([]uint64{15, i, j, metas[0].Index}) // lastIndex = the snapshot's index: after a success the call returns
+				if len(c.smsgs) > nsm && r.chance(3, 4) {
+					nsa := len(c.sans)
+					emit([]uint64{16, uint64(len(c.smsgs) - 1)})
+					if len(c.sans) > nsa && r.chance(3, 4) {
+						emit([]uint64{17, uint64(len(c.sans) - 1)})
+						followUps()
+					}
+				}
+			case y < 8 && len(c.smsgs) > 0:
+				emit([]uint64{16, uint64(r.intn(len(c.smsgs)))}) // late / repeated delivery of any snapshot request
+			case len(c.sans) > 0:
+				emit([]uint64{17, uint64(len(c.sans) - 1 - r.intn(min(3, len(c.sans))))})
+				followUps()
+			default:
+				for key := range c.sout {
+					emit([]uint64{18, key[0], key[1]})
+					break
+				}
+			}
+			continue
+		}
 		switch {
 		case x < 2:
 			emit([]uint64{5, uint64(1 + r.intn(n))})
@@ -488,12 +666,7 @@ func c101GenT(r *rng, n int, steps int, commit bool, trail uint64) (in []uint64,
 			// (that only happens after a refusal - every call is started with at most one batch to send - so
 			// the commit index is not moving while it is built); the call is then made to fail, and a
 			// later call starts from the new nextIndex with a fresh lastIndex
-			for key, d := range c.calls {
-				if _, waiting := c.out[key]; !waiting {
-					emit([]uint64{8, key[0], key[1], d.req.PrevLogEntry + 1, d.last})
-					emit([]uint64{13, key[0], key[1]})
-				}
-			}
+			followUps()
 		case x < 56:
 			// a leader acts: propose, build a request, heartbeat
 			i := leaders[r.intn(len(leaders))][0]
@@ -543,12 +716,7 @@ func c101GenT(r *rng, n int, steps int, commit bool, trail uint64) (in []uint64,
 					if commit && len(c.ans) > nans && r.chance(3, 4) {
 						// the whole exchange at once: the answer returns to the blocked call
 						emit([]uint64{12, uint64(len(c.ans) - 1)})
-						for key, d := range c.calls {
-							if _, waiting := c.out[key]; !waiting {
-								emit([]uint64{8, key[0], key[1], d.req.PrevLogEntry + 1, d.last})
-								emit([]uint64{13, key[0], key[1]})
-							}
-						}
+						followUps()
 					}
 				}
 			default:
@@ -596,12 +764,17 @@ func c101Run(in0 []uint64, commit bool) (in []uint64, obs []uint64, leaders int)
 }
 
 func c101RunT(in0 []uint64, commit bool, trail uint64) (in []uint64, obs []uint64, leaders int) {
+	return c101RunI(in0, commit, trail, false)
+}
+
+func c101RunI(in0 []uint64, commit bool, trail uint64, inst bool) (in []uint64, obs []uint64, leaders int) {
 	if trail != 0 {
 		in0 = in0[1:]
 	}
 	n := int(in0[0])
 	extras := in0[1 : 1+n]
 	c := newLgClusterT(extras, commit, trail)
+	c.inst = inst
 	defer c.closeAll()
 	c.settle()
 	in = append([]uint64{uint64(n)}, extras...)
